@@ -2124,6 +2124,11 @@ def _put_slice_ClassDef_bases(
         if body and keywords[0].f.loc[:2] < body[stop - 1].f.loc[2:] and stop:
             raise NodeError("cannot put to ClassDef.bases slice because it follows keywords, try the '_bases' field")
 
+        if (fst_ and start == stop < len_body and keywords[0].f.loc[:2] < body[stop].f.loc[:2]
+            and any(a.__class__ is not Starred for a in fst_.a.elts)
+        ):  # pure insertion in front of a base which follows keywords winds up after those keywords, only a Starred can live there
+            raise NodeError("cannot put to ClassDef.bases slice because it follows keywords, try the '_bases' field")
+
     bound_ln, bound_col, bound_end_ln, bound_end_col = bases_pars = self._loc_ClassDef_bases_pars()
 
     locabst = _LocationAbstract(body)
@@ -2828,6 +2833,11 @@ def _put_slice_Call_args(
 
     if keywords := ast.keywords:
         if body and keywords[0].f.loc[:2] < body[stop - 1].f.loc[2:] and stop:
+            raise NodeError("cannot put to Call.args slice because it follows keywords, try the '_args' field")
+
+        if (fst_ and start == stop < len_body and keywords[0].f.loc[:2] < body[stop].f.loc[:2]
+            and any(a.__class__ is not Starred for a in fst_.a.elts)
+        ):  # pure insertion in front of an arg which follows keywords winds up after those keywords, only a Starred can live there
             raise NodeError("cannot put to Call.args slice because it follows keywords, try the '_args' field")
 
     else:
